@@ -69,7 +69,11 @@ func MakeHashable(s []interface{}) interface{} {
 		// slow catch-all:
 		array := reflect.New(reflect.ArrayOf(len(d), interfaceTyp)).Elem()
 		for i, elem := range d {
-			array.Index(i).Set(reflect.ValueOf(elem))
+			// A nil element (a SQL NULL argument) has no reflect.Value to set; the
+			// zero value of the interface{} slot already is nil.
+			if elem != nil {
+				array.Index(i).Set(reflect.ValueOf(elem))
+			}
 		}
 		return array.Interface()
 	}
